@@ -916,6 +916,10 @@ Section WithCfg.
     | [] => false
     end.
 
+  (* the filter of parse_block on a parsed metadata entry (mod.rs 361-371) *)
+  Definition meta_kept (old_style : bool) (key : text) : bool :=
+    (is_config_key key && has X_MODES) || old_style.
+
   Definition parse_block (old_style : bool) : M unit :=
     k <- peek ;;
     mos <- (match k with
@@ -924,7 +928,7 @@ Section WithCfg.
                   ev <-? metadata_entry ;;
                   match ev with
                   | EvMetadata key _ =>
-                      if (is_config_key key && has X_MODES) || old_style then ret (Some ev) else ret None
+                      if meta_kept old_style key then ret (Some ev) else ret None
                   | _ => ret (Some ev)
                   end)
             | KEq => with_recover section_p
